@@ -17,9 +17,13 @@ def trap(v):
 
 
 class Plain:
-    def __init__(self, nid, probe=None):
+    def __init__(self, nid, probe=None, falsy=False):
         self.nid = nid
         self.probe = probe
+        self.falsy = falsy
+
+    def __len__(self):     # a manager that is also an (empty) container is falsy
+        return 0 if self.falsy else 1
 
     def __enter__(self):
         return self
@@ -37,9 +41,13 @@ class Plain:
 
 
 class APlain:
-    def __init__(self, nid, suspend=False):
+    def __init__(self, nid, suspend=False, falsy=False):
         self.nid = nid
         self.suspend = suspend
+        self.falsy = falsy
+
+    def __len__(self):
+        return 0 if self.falsy else 1
 
     async def __aenter__(self):
         return self
@@ -95,9 +103,10 @@ class Builder:
         t = node["t"]
         if t == "plain":
             if node["async"]:
-                r.obj = APlain(node["id"], suspend=(node["id"] == self.exiting_nid))
+                r.obj = APlain(node["id"], suspend=(node["id"] == self.exiting_nid), falsy=node.get("falsy", False))
             else:
-                r.obj = Plain(node["id"], probe=self.probe if node["id"] == self.exiting_nid else None)
+                r.obj = Plain(node["id"], probe=self.probe if node["id"] == self.exiting_nid else None,
+                              falsy=node.get("falsy", False))
         elif t == "gcm":
             subs = [self.make(n) for n in node["opens"]]
             r.opens = subs
